@@ -157,6 +157,16 @@ func genC17(e *emitter, tier string) {
 			return []NamedT{{"x", val([]int{1 + (g+k)%3, 3}, g, k)}}
 		}, G, K, 1))
 	}
+	// Scaler on an input that already has the shape of its attribute lists (no broadcast needed: the
+	// helper hands the attribute tensor itself back)
+	for _, G := range gs {
+		gsc := &GraphJ{Inputs: []VInfoJ{{Name: "x", Dt: "f32", Dims: []any{3}}},
+			Nodes:   []NodeJ{{Op: "Scaler", Attrs: []Attr{{Name: "offset", Type: "floats", Fs: []float64{1, 2, 3}}, {Name: "scale", Type: "floats", Fs: []float64{2, 3, 4}}}, Ins: []string{"x"}, Outs: []string{"s"}}},
+			Outputs: []string{"s"}}
+		e.emit(concCase("ml-attrs-same-shape", func() (*gonnx.Model, error) { return loadModel(gsc) }, gsc, func(g, k int) []NamedT {
+			return []NamedT{{"x", val([]int{3}, g, k)}}
+		}, G, K, 1))
+	}
 	// operators that derive per-call values from the current input (Conv auto_pad from the spatial size,
 	// Concat/Reshape/Slice from their operands): concurrent Runs with different dynamic extents
 	for _, G := range gs {
